@@ -254,3 +254,73 @@ Theorem C13_engine_ties :
      "if ret is True: ... context.pop_tokens(jump); break"%string].
 Proof. split; [exact eol_pinned|exact registry_loop_pinned]. Qed.
 Print Assumptions C13_engine_ties.
+
+(* ---- the reject direction at file level: source text -> lexer model -> turns -> generated machine *)
+From NV Require Import Model.Diag Proofs.HeaderReject Proofs.FirstToken Proofs.HeaderReject2.
+(* ---- append block for Props/C13.v (imports to add: Proofs.HeaderReject Proofs.FirstToken Proofs.HeaderReject2) *)
+Theorem C13_file_reject_lines : forall uw ud bs src items xf items' xf' oracle name jmp m,
+  forallb body_ok bs = true -> bs <> [] -> ~ searches header_re (comment_lines bs) ->
+  lex uw ud src = Ok (items, xf) -> first_tok_not_block (tokens_of items) = true ->
+  lex uw ud (comment_lines bs ++ src) = Ok (items', xf') ->
+  induced oracle (tokens_of items') -> oracle (List.length bs) = Matched name jmp ->
+  diag_count (events_upto oracle (tokens_of items') (List.length bs + S m)) = 1%nat.
+Proof. exact file_reject_lines. Qed.
+Print Assumptions C13_file_reject_lines.
+
+Theorem C13_file_reject_Hm6 : forall uw ud j f src items xf items' xf' oracle name jmp m,
+  (j < 11)%nat -> fields_lex_ok f = true -> fields_plain f = true ->
+  lex uw ud src = Ok (items, xf) -> first_tok_not_block (tokens_of items) = true ->
+  lex uw ud (lines_text (hm6_lines j f) ++ src) = Ok (items', xf') ->
+  induced oracle (tokens_of items') -> oracle 10%nat = Matched name jmp ->
+  diag_count (events_upto oracle (tokens_of items') (10 + S m)) = 1%nat.
+Proof. exact file_reject_Hm6. Qed.
+Print Assumptions C13_file_reject_Hm6.
+
+Theorem C13_file_reject_Hm7 : forall uw ud last n f src items xf items' xf' oracle name jmp m,
+  n <> 74%nat -> fields_lex_ok f = true -> fields_plain f = true ->
+  lex uw ud src = Ok (items, xf) -> first_tok_not_block (tokens_of items) = true ->
+  lex uw ud (lines_text (hm7_lines last n f) ++ src) = Ok (items', xf') ->
+  induced oracle (tokens_of items') -> oracle 11%nat = Matched name jmp ->
+  diag_count (events_upto oracle (tokens_of items') (11 + S m)) = 1%nat.
+Proof. exact file_reject_Hm7. Qed.
+Print Assumptions C13_file_reject_Hm7.
+
+Theorem C13_file_reject_Hm8 : forall uw ud k x f src items xf items' xf' oracle name jmp m,
+  (k = 5 \/ k = 7 \/ k = 8)%nat -> fields_lex_ok f = true -> fields_plain f = true ->
+  chain_ok 32 x = true -> no_char 42 x = true -> starts_with (keyword_of k) (textline x (art_of k)) = false ->
+  lex uw ud src = Ok (items, xf) -> first_tok_not_block (tokens_of items) = true ->
+  lex uw ud (lines_text (hm8_lines k x f) ++ src) = Ok (items', xf') ->
+  induced oracle (tokens_of items') -> oracle 11%nat = Matched name jmp ->
+  diag_count (events_upto oracle (tokens_of items') (11 + S m)) = 1%nat.
+Proof. exact file_reject_Hm8. Qed.
+Print Assumptions C13_file_reject_Hm8.
+
+Theorem C13_file_reject_Hm3 : forall uw ud r items' xf' oracle name jmp m,
+  lex uw ud (10%N :: r) = Ok (items', xf') -> oracle 0%nat = Matched name jmp ->
+  diag_count (events_upto oracle (tokens_of items') (S m)) = 1%nat.
+Proof. exact file_reject_Hm3. Qed.
+Print Assumptions C13_file_reject_Hm3.
+
+Theorem C13_file_reject_Hm4 : forall uw ud r items' xf' oracle name jmp m,
+  lex uw ud (47%N :: 47%N :: r) = Ok (items', xf') -> oracle 0%nat = Matched name jmp ->
+  diag_count (events_upto oracle (tokens_of items') (S m)) = 1%nat.
+Proof. exact file_reject_Hm4. Qed.
+Print Assumptions C13_file_reject_Hm4.
+
+Theorem C13_file_reject_no_opening : forall uw ud file t lo hi its xf' oracle name jmp m,
+  lex uw ud file = Ok (ITok t lo hi :: its, xf') -> no_opening file -> oracle 0%nat = Matched name jmp ->
+  diag_count (events_upto oracle (tokens_of (ITok t lo hi :: its)) (S m)) = 1%nat.
+Proof. exact file_reject_no_opening. Qed.
+Print Assumptions C13_file_reject_no_opening.
+
+Theorem C13_src_condition : forall uw ud src items xf,
+  lex uw ud src = Ok (items, xf) ->
+  ((exists r, src = 10%N :: r) \/ (no_opening src /\ exists t lo hi its, items = ITok t lo hi :: its)) ->
+  first_tok_not_block (tokens_of items) = true.
+Proof. exact src_condition. Qed.
+Print Assumptions C13_src_condition.
+
+Theorem C13_only_opening_makes_block_comment : forall uw ud x t x', raw_peek 2 (rest x) <> Some (s "/*") ->
+  try_parsers uw ud parsers x = PTok t x' -> not_mult (t_type t) = true.
+Proof. exact try_parsers_not_mult. Qed.
+Print Assumptions C13_only_opening_makes_block_comment.
